@@ -25,7 +25,7 @@ from collections import Counter
 
 VERIF = os.path.dirname(os.path.dirname(os.path.abspath(__file__)))
 MAX_VIOL_PER_SHARD = 3
-WATCHDOG_S = int(os.environ.get("VERIF_WATCHDOG_S", "40"))
+WATCHDOG_S = int(os.environ.get("VERIF_WATCHDOG_S", "120"))
 AS_LIMIT = int(os.environ.get("VERIF_AS_LIMIT", str(6 << 30)))
 
 
